@@ -41,7 +41,8 @@ fn main() {
         for l in &outcome.log {
             writeln!(out, "{}", l).unwrap();
         }
-        writeln!(out, "{} {}", outcome.end, outcome.steps).unwrap();
+        let pend = prog::PENDING.with(|p| p.borrow().iter().map(|o| o.to_string()).collect::<Vec<_>>().join(" "));
+        writeln!(out, "{} {}", outcome.end, pend).unwrap();
         writeln!(out, "end").unwrap();
     }
 }
